@@ -3,7 +3,7 @@ from __future__ import annotations
 import ast, z3
 from typing import Any, Dict, List, Optional, Tuple
 from . import front, smt
-from .front import OutsideSubset, ContractError
+from .front import OutsideSubset, ContractError, EffectMissing
 from .smt import T, parse_T, Ref, Dyn, Flt, Int, Bool, Str
 from .values import *
 from .state import *
@@ -527,21 +527,27 @@ class CallMixin:
         if name == "effect_arg":
             nm, k, i = ast.literal_eval(A[0]), ast.literal_eval(A[1]), ast.literal_eval(A[2])
             es = [e for e in st.ghost.get("effects", []) if e[0] == nm]
+            if k >= len(es):
+                raise EffectMissing(nm)
             return es[k][2][i]
         if name == "effect_result":
             nm, k = ast.literal_eval(A[0]), ast.literal_eval(A[1])
             es = [e for e in st.ghost.get("effects", []) if e[0] == nm]
             if k >= len(es):
-                raise OutsideSubset(f"effect {nm}[{k}] did not happen on this path; log: {[e[0] for e in st.ghost.get('effects', [])]}")
+                raise EffectMissing(f"effect {nm}[{k}] did not happen on this path; log: {[e[0] for e in st.ghost.get('effects', [])]}")
             return es[k][4]
         if name == "effect_recv":
             nm, k = ast.literal_eval(A[0]), ast.literal_eval(A[1])
             es = [e for e in st.ghost.get("effects", []) if e[0] == nm]
+            if k >= len(es):
+                raise EffectMissing(nm)
             return zstr(es[k][1])
         if name == "effect_index":
             # position in the overall log of the k-th effect called nm (to state ordering)
             nm, k = ast.literal_eval(A[0]), ast.literal_eval(A[1])
             idx = [j for j, e in enumerate(st.ghost.get("effects", [])) if e[0] == nm]
+            if k >= len(idx):
+                raise EffectMissing(nm)
             return zint(idx[k])
         if name == "world":
             return st.ghost["__world"]
